@@ -257,6 +257,38 @@ theorem se3_taylor_defect_size (y t : Vec3 ℝ) (h1 : y.normSq ≤ 1) :
   · exact mul_le_mul c1 a1 p1 (sq_nonneg _)
   · exact mul_le_mul c2 a2 p2 (sq_nonneg _)
 
+/-- **SE3 adjoint identities on the Taylor branch, closed-form bound**: for valid `X`, `θ = ‖φ‖ ≤ eps`, `n = θ² ≤ 1` the translation blocks of
+`Exp(Adj X a)·X` and `X·Exp(a)` (resp. `Exp(a)·X` and `X·Exp(AdjT X a)`) differ by a vector `D` with
+`‖D‖² ≤ 2(n³/5760)²·n‖t‖² + 2(n²/720)²·n²‖t‖²` (rotation blocks equal) — i.e. `‖D‖ ≤ √2·(θ⁷/5760 + θ⁶/720)‖t‖`, below `1e-90·‖t‖` at machine eps. -/
+theorem SE3_Adj_taylor_distance (eps : ℝ) (X : SE3 ℝ) (hX : SE3.Valid X) (a : se3 ℝ) (h : ¬ eps < a.phi.norm) (h1 : a.phi.normSq ≤ 1) :
+    ∃ D : Vec3 ℝ, (SE3Mul (se3Exp eps (se3.ofList (SE3AdjXa X a))) X).t = (SE3Mul X (se3Exp eps a)).t.add D ∧
+      D.normSq ≤ 2 * ((a.phi.normSq ^ 3 / 5760) ^ 2 * (a.phi.normSq * X.t.normSq))
+        + 2 * ((a.phi.normSq ^ 2 / 720) ^ 2 * (a.phi.normSq ^ 2 * X.t.normSq)) := by
+  obtain ⟨_, ht⟩ := SE3_Adj_identity_taylor_partial eps X hX a h
+  have hq : X.q.normSq = 1 := hX
+  have hy : (X.q.act a.phi).normSq = a.phi.normSq := Quat.act_normSq X.q hq a.phi
+  have h1' : (X.q.act a.phi).normSq ≤ 1 := by rw [hy]; exact h1
+  obtain ⟨s1, s2⟩ := se3_taylor_defect_size (X.q.act a.phi) X.t h1'
+  rw [hy] at s1 s2
+  refine ⟨(((X.q.act a.phi).cross X.t).smul (a.phi.normSq ^ 3 * (a.phi.normSq - 128) / 737280)).add
+      (((X.q.act a.phi).cross ((X.q.act a.phi).cross X.t)).smul (a.phi.normSq ^ 2 * (a.phi.normSq ^ 2 - 160 * a.phi.normSq + 10240) / 7372800)), ?_, ?_⟩
+  · rw [ht]; ext <;> lie_unfold <;> ring
+  · exact le_trans (add_normSq_le _ _) (by linarith)
+/-- … the same bound for `AdjT` -/
+theorem SE3_AdjT_taylor_distance (eps : ℝ) (X : SE3 ℝ) (hX : SE3.Valid X) (a : se3 ℝ) (h : ¬ eps < a.phi.norm) (h1 : a.phi.normSq ≤ 1) :
+    ∃ D : Vec3 ℝ, (SE3Mul (se3Exp eps a) X).t = (SE3Mul X (se3Exp eps (se3.ofList (SE3AdjTXa X a)))).t.add D ∧
+      D.normSq ≤ 2 * ((a.phi.normSq ^ 3 / 5760) ^ 2 * (a.phi.normSq * X.t.normSq))
+        + 2 * ((a.phi.normSq ^ 2 / 720) ^ 2 * (a.phi.normSq ^ 2 * X.t.normSq)) := by
+  obtain ⟨_, ht⟩ := SE3_AdjT_identity_taylor_partial eps X hX a h
+  obtain ⟨s1, s2⟩ := se3_taylor_defect_size a.phi X.t h1
+  exact ⟨_, ht, le_trans (add_normSq_le _ _) (by linarith)⟩
+/-- non-vacuity: `φ = (2⁻⁶⁰,0,0)` satisfies both hypotheses at machine eps (`‖φ‖ ≤ 2⁻⁵²` by the example above, `‖φ‖² ≤ 1` here) -/
+example : (⟨(2 : ℝ)⁻¹ ^ 60, 0, 0⟩ : Vec3 ℝ).normSq ≤ 1 := by
+  have : (⟨(2 : ℝ)⁻¹ ^ 60, 0, 0⟩ : Vec3 ℝ).normSq = ((2 : ℝ)⁻¹ ^ 60) ^ 2 := by lie_unfold; ring
+  rw [this]
+  have h : (2 : ℝ)⁻¹ ^ 60 ≤ 1 := pow_le_one₀ (by norm_num) (by norm_num)
+  nlinarith [pow_nonneg (by norm_num : (0 : ℝ) ≤ 2⁻¹) 60]
+
 /-- Sim3, every regime: rotation and scale blocks agree exactly; the translation blocks differ by
 `g₀·t + g₁·(y×t) + g₂·y×(y×t)` with the `g`s built from the model's own coefficients `(A,B,C)` of `rxso3_Ws` and `(s,w)` of
 `so3_Exp` (all three vanish in the closed-form regimes: `Sim3_Adj_identity`). -/
